@@ -17,7 +17,7 @@ from ..refs import c02_laws as L
 
 ID = 'C02'
 LEVEL = 'exploration'
-CASES = {'quick': 2400, 'thorough': 40000}
+CASES = {'quick': 2400, 'thorough': 32000}
 CASE_TIMEOUT = 30
 MAXITER = 1000     # Newton iterations per solve (WNTR default 3000): a slower solve only turns a case inconclusive
 TECHNIQUE = ('property-based testing (Hypothesis): (a) flow sweep of one generated link, the zero set of its '
@@ -33,7 +33,12 @@ RULE = ('mode=model (about half of the cases): one link between two nodes (junct
         'and compared with the law.  Non-trivial = link not closed.  mode=net: netgen network (2-8 junctions, '
         'thorough to 16; loops, parallel links, tanks, pump-fed or gravity-fed, boosters, CV pipes, closed pipes, '
         'valves of every type and initial status, DD/PDD, both H-W approximations) plus up to two extra valves / CV '
-        'pipes / 2-point boosters placed by this module; one WNTRSimulator run.  Non-trivial = at least one pump, '
+        'pipes / 2-point boosters placed by this module, fixed-status OPEN valves turned against the flow in a third '
+        'of the cases, networks with a power pump run demand-driven for a single period (a quarter of those with a '
+        'second source get a suction head above the zone: "downhill"); a fifth of the net cases is a two-zone template '
+        '(source - pipe - J1 - valve - J2 - pipe - lower source/tank) with PSV/FCV/PRV settings placed between the '
+        'two source heads so that the valve is reported Active; one WNTRSimulator run (Newton MAXITER 1000).  '
+        'Non-trivial = at least one pump, '
         'valve or CV pipe was judged at a reported step in a non-closed, non-isolated state.  '
         'Distinct = SHA-1 of the case.')
 ASSUMPTIONS = [
@@ -56,7 +61,8 @@ TOLERANCES = {
     'hw_resistance_rel': '5e-5 on the friction term (10.667 documented; 10.66683 from EPANET 4.727 by unit conversion)',
     'hw_default_approx': '1e-5*sqrt(K)*|q| (eps term of the default approximation)',
     'Qtol': '2.83168e-6 m3/s (0.0001 cfs) for reverse flow in pumps / CV pipes',
-    'pump_fit_rel': '1e-9 for closed-form 1-/2-point curves, 1e-6 for 3-point curves (scipy curve_fit xtol/ftol 1e-8)',
+    'pump_fit_rel': '1e-9 for closed-form 1-/2-point curves, 1e-6 of the shut-off head for 3-point curves (scipy '
+                    'curve_fit terminates at xtol/ftol 1e-8; measured on the unchanged code: 4e-15)',
     'float_rel': '1e-10..1e-12 relative for residual arithmetic at model level',
     'pump_slope': '1e-11 m per m3/s: line replacing the pump curve below the smoothing point',
 }
@@ -67,7 +73,7 @@ LEVEL_NOTE = ('trusted base: the reference laws in vlib/refs/c02_laws.py, Hypoth
 
 FEAT = {'nj': (2, 8), 'tanks': (0, 2), 'extra_res': (0, 1), 'pumps': True, 'valves': True, 'cvs': True,
         'closed': True, 'leaks': False, 'vol_curves': False, 'tank_links_special': True, 'booster': True,
-        'wild': 0.1, 'durations': [0, 3600, 7200, 4 * 3600, 12 * 3600], 'report_all': None}
+        'wild': 0.06, 'durations': [0, 0, 0, 3600, 7200, 4 * 3600, 12 * 3600], 'report_all': None}
 
 CON_DICT = {'headpump': 'head_pump_headloss', 'powerpump': 'power_pump_headloss', 'PRV': 'prv_headloss',
             'PSV': 'psv_headloss', 'FCV': 'fcv_headloss', 'TCV': 'tcv_headloss'}
@@ -149,7 +155,58 @@ def model_case(draw, tier='quick'):
 
 
 @st.composite
+def _zone_spec(draw):
+    """two pressure zones joined by one valve: source R1 - pipe - JA - [valve] - JB - pipe - lower source.
+    The flow through the valve is free (a source on either side), so PSV/FCV/PRV settings between the two
+    source heads are feasible and the valve is reported Active (in a tree with fixed demands they cannot be)."""
+    o = draw(netgen.options({'durations': [0, 0, 3600, 4 * 3600], 'report_all': None}))
+    h1 = r_(draw(st.floats(70, 100)), 1)
+    drop = draw(st.sampled_from([15.0, 25.0, 40.0]))
+    h2 = r_(h1 - drop, 1)
+    za, zb = r_(draw(st.floats(0, 15)), 2), r_(draw(st.floats(0, 15)), 2)
+    vt = draw(st.sampled_from(['PSV', 'PSV', 'PSV', 'FCV', 'FCV', 'PRV', 'TCV']))
+    stt = draw(st.sampled_from(['ACTIVE', 'ACTIVE', 'ACTIVE', 'ACTIVE', 'OPEN']))
+    tight_up = vt == 'PSV' or (vt != 'PRV' and draw(st.booleans()))     # which side carries the resistance
+    tight = {'len': r_(draw(st.floats(300, 2000)), 1), 'diam': draw(st.sampled_from([0.1, 0.15, 0.2]))}
+    wide = {'len': r_(draw(st.floats(20, 200)), 1), 'diam': draw(st.sampled_from([0.3, 0.4, 0.5]))}
+    frac = draw(st.sampled_from([0.3, 0.5, 0.7, 0.9]))
+    target = h2 + drop * frac
+    if vt == 'PSV':
+        setting = r_(target - za, 2)
+    elif vt == 'PRV':
+        setting = r_(target - zb, 2)
+    elif vt == 'FCV':
+        setting = draw(st.sampled_from([0.0005, 0.002, 0.005, 0.02]))
+    else:
+        setting = draw(st.sampled_from([5.0, 50.0, 500.0, 5000.0]))
+
+    def pipe(name, a, b, geo):
+        return {'name': name, 'a': a, 'b': b, 'len': geo['len'], 'diam': geo['diam'], 'C': r_(draw(st.floats(70, 140)), 1),
+                'minor': draw(st.sampled_from([0.0, 0.0, 2.0])), 'status': 'OPEN', 'cv': False}
+    dem = [0.0, 0.0005, 0.002]
+    spec = {'opts': o, 'patterns': {'P1': [1.0, 0.6, 1.4]}, 'curves': {}, 'controls': [], 'profile': 'zones', 'tanks': [],
+            'junctions': [{'name': 'J1', 'elev': za, 'demands': [[draw(st.sampled_from(dem)), None, None]]},
+                          {'name': 'J2', 'elev': zb, 'demands': [[draw(st.sampled_from(dem)), draw(st.sampled_from([None, 'P1'])), None]]}],
+            'reservoirs': [{'name': 'R1', 'head': h1, 'pat': None}],
+            'pipes': [pipe('L1', 'R1', 'J1', tight if tight_up else wide)], 'pumps': [], 'valves': []}
+    if draw(st.booleans()):
+        spec['reservoirs'].append({'name': 'R2', 'head': h2, 'pat': None})
+        low = 'R2'
+    else:
+        spec['tanks'].append({'name': 'T1', 'elev': r_(h2 - 5.0, 1), 'init': 5.0, 'min': 0.0, 'max': 10.0, 'diam': 20.0,
+                              'min_vol': 0.0, 'vol_curve': None})
+        low = 'T1'
+    spec['pipes'].append(pipe('L2', 'J2', low, wide if tight_up else tight))
+    a, b = ('J1', 'J2') if draw(st.integers(0, 5)) else ('J2', 'J1')
+    spec['valves'].append({'name': 'V3', 'a': a, 'b': b, 'type': vt, 'diam': draw(st.sampled_from([0.1, 0.2, 0.3])),
+                           'minor': draw(st.sampled_from([0.0, 1.0, 5.0])), 'setting': setting, 'status': stt})
+    return spec
+
+
+@st.composite
 def net_case(draw, tier='quick'):
+    if draw(st.integers(0, 4)) == 0:
+        return {'mode': 'net', 'spec': draw(_zone_spec())}
     f = dict(FEAT)
     if tier == 'thorough':
         f['nj'] = (2, 16)
@@ -157,6 +214,11 @@ def net_case(draw, tier='quick'):
         f['durations'] = f['durations'] + [24 * 3600]
     spec = draw(netgen.network(f))
     _augment(draw, spec)
+    for v in spec['valves']:
+        # an ACTIVE PSV in a tree with fixed demands has no feasible throttling position (WNTR then rarely
+        # converges); active PSVs are exercised by the two-zone template instead
+        if v['type'] == 'PSV' and v['status'] == 'ACTIVE' and draw(st.integers(0, 3)) > 0:
+            v['status'] = draw(st.sampled_from(['OPEN', 'CLOSED']))
     for v in spec['valves']:
         # an OPEN (fixed status) valve is a plain minor-loss element: exercise it in both flow directions
         if v['status'] == 'OPEN' and draw(st.integers(0, 2)) == 0:
@@ -312,8 +374,14 @@ class _Sweep(object):
         x = x0
         for _ in range(stages):
             step = max(1.0, abs(x) * 1e-3)
-            xa, xb = x, x + step
-            fa, fb = f(xa), f(xb)
+            xa = x
+            fa = f(xa)
+            while True:
+                xb = x + step
+                fb = f(xb)
+                if fb != fa or step > 1e290:
+                    break
+                step *= 1e4         # |f| so large that the step is lost in rounding: widen it
             if fb == fa or not (math.isfinite(fa) and math.isfinite(fb)):
                 return None
             x = xa - fa * (xb - xa) / (fb - fa)
